@@ -81,6 +81,7 @@ func goList(repo, modfile string, tags string) (map[string]*listPkg, error) {
 type rewriteStats struct {
 	MapRanges  int
 	SyncTypes  int
+	Selects    int
 	Files      int
 	FilesTotal int
 }
@@ -167,6 +168,17 @@ func rewriteFile(fset *token.FileSet, af *ast.File, info *types.Info, name, repo
 		}
 	}
 	rel, _ := filepath.Rel(repo, name)
+	if rewriteSelects(fset, af, rel, st) {
+		changed = true
+		// shared clause nodes are printed more than once: keep only build constraints as comments
+		var keep []*ast.CommentGroup
+		for _, cg := range af.Comments {
+			if len(cg.List) > 0 && strings.HasPrefix(cg.List[0].Text, "//go:build") {
+				keep = append(keep, cg)
+			}
+		}
+		af.Comments = keep
+	}
 	ast.Inspect(af, func(n ast.Node) bool {
 		switch x := n.(type) {
 		case *ast.RangeStmt:
@@ -277,4 +289,126 @@ func listGoFiles(dir string) []string {
 	})
 	sort.Strings(res)
 	return res
+}
+
+// rewriteSelects: a blocking `select` with several communication cases picks *randomly* among
+// the cases that are ready at the same moment (runtime random, not seedable). It is rewritten to
+// first poll the cases in a simulator-chosen priority order (non-blocking) and only then block on
+// the original statement. Any choice among ready cases is legal Go; the order becomes a
+// per-seed schedule choice (simrt.Flip) instead of a coin the simulator cannot replay.
+func rewriteSelects(fset *token.FileSet, af *ast.File, rel string, st *rewriteStats) bool {
+	changed := false
+	done := map[*ast.SelectStmt]bool{}
+	var visitBlock func(list []ast.Stmt)
+	replace := func(sel *ast.SelectStmt) ast.Stmt {
+		if done[sel] {
+			return nil
+		}
+		var clauses []*ast.CommClause
+		for _, c := range sel.Body.List {
+			cc := c.(*ast.CommClause)
+			if cc.Comm == nil {
+				return nil // has a default: never blocks, nothing random about readiness ties worth fixing
+			}
+			clauses = append(clauses, cc)
+		}
+		if len(clauses) < 2 {
+			return nil
+		}
+		hasLabel := false
+		ast.Inspect(sel, func(n ast.Node) bool {
+			if _, ok := n.(*ast.LabeledStmt); ok {
+				hasLabel = true
+			}
+			return true
+		})
+		if hasLabel {
+			return nil
+		}
+		var try func(order []*ast.CommClause) ast.Stmt
+		try = func(order []*ast.CommClause) ast.Stmt {
+			if len(order) == 0 {
+				fb := &ast.SelectStmt{Body: &ast.BlockStmt{List: sel.Body.List}}
+				done[fb] = true
+				return fb
+			}
+			return &ast.SelectStmt{Body: &ast.BlockStmt{List: []ast.Stmt{
+				order[0],
+				&ast.CommClause{Comm: nil, Body: []ast.Stmt{try(order[1:])}},
+			}}}
+		}
+		st.Selects++
+		changed = true
+		site := fmt.Sprintf("%s:%d", rel, fset.Position(sel.Pos()).Line)
+		if len(clauses) == 2 {
+			rev := []*ast.CommClause{clauses[1], clauses[0]}
+			return &ast.IfStmt{
+				Cond: &ast.CallExpr{Fun: &ast.SelectorExpr{X: ast.NewIdent("simrt"), Sel: ast.NewIdent("Flip")}, Args: []ast.Expr{&ast.BasicLit{Kind: token.STRING, Value: strconv.Quote(site)}}},
+				Body: &ast.BlockStmt{List: []ast.Stmt{try(clauses)}},
+				Else: &ast.BlockStmt{List: []ast.Stmt{try(rev)}},
+			}
+		}
+		return try(clauses)
+	}
+	var visitStmt func(s ast.Stmt) ast.Stmt
+	visitStmt = func(s ast.Stmt) ast.Stmt {
+		switch x := s.(type) {
+		case *ast.SelectStmt:
+			for _, c := range x.Body.List {
+				visitBlock(c.(*ast.CommClause).Body)
+			}
+			if r := replace(x); r != nil {
+				return r
+			}
+		case *ast.LabeledStmt:
+			// a labeled select/for keeps its label on the outermost new statement
+			x.Stmt = visitStmt(x.Stmt)
+		case *ast.BlockStmt:
+			visitBlock(x.List)
+		case *ast.IfStmt:
+			visitBlock(x.Body.List)
+			if x.Else != nil {
+				x.Else = visitStmt(x.Else)
+			}
+		case *ast.ForStmt:
+			visitBlock(x.Body.List)
+		case *ast.RangeStmt:
+			visitBlock(x.Body.List)
+		case *ast.SwitchStmt:
+			for _, c := range x.Body.List {
+				visitBlock(c.(*ast.CaseClause).Body)
+			}
+		case *ast.TypeSwitchStmt:
+			for _, c := range x.Body.List {
+				visitBlock(c.(*ast.CaseClause).Body)
+			}
+		case *ast.GoStmt:
+			if fl, ok := x.Call.Fun.(*ast.FuncLit); ok {
+				visitBlock(fl.Body.List)
+			}
+		case *ast.DeferStmt:
+			if fl, ok := x.Call.Fun.(*ast.FuncLit); ok {
+				visitBlock(fl.Body.List)
+			}
+		}
+		return s
+	}
+	visitBlock = func(list []ast.Stmt) {
+		for i := range list {
+			list[i] = visitStmt(list[i])
+		}
+	}
+	// function literals anywhere (assigned to variables, passed as arguments)
+	ast.Inspect(af, func(n ast.Node) bool {
+		switch x := n.(type) {
+		case *ast.FuncDecl:
+			if x.Body != nil {
+				visitBlock(x.Body.List)
+			}
+		case *ast.FuncLit:
+			visitBlock(x.Body.List)
+		}
+		return true
+	})
+	return changed
 }
